@@ -327,6 +327,12 @@ func genC06(r *Rng) *Scenario {
 		if r.chance(0.3) {
 			tail = []byte{'a', 'b', 'c', 'd'}[:r.IntN(5)]
 		}
+		if int(hi)<<8|int(lo) <= len(tail) {
+			tail = tail[:0] // the announced length must exceed what follows
+			if hi == 0 && lo == 0 {
+				lo = 1
+			}
+		}
 		b := frame(0x30, append([]byte{hi, lo}, tail...))
 		o.RawHex, o.Class = hex.EncodeToString(b), "topic-beyond-body"
 	case 9: // QoS>0 without room for the identifier
